@@ -14,14 +14,14 @@ Syntax == {94, 36, 92, 46, 42, 43, 63, 40, 41, 91, 93, 123, 125, 124}
 Punct == {47, 45, 44, 61, 60, 62, 33, 38, 35, 58, 32}
 \* b c d k p q u x a A 0 1
 Letters == {98, 99, 100, 107, 112, 113, 117, 120, 97, 65, 48, 49}
-NonAscii == {233, 128512}
+NonAscii == {233, 128512, 924}     \* e-acute, U+1F600, GREEK CAPITAL MU (its lower-case partners U+00B5, U+03BC are smaller / larger)
 Full == Syntax \cup Punct \cup Letters \cup NonAscii
 
 Strings == IF Thorough THEN StringsUpTo(Full, 3)
            ELSE StringsUpTo(Full, 2) \cup StringsUpTo(Syntax \cup {45, 98, 107, 49, 233}, 3)
 
 SwapCase(c) == IF c >= 97 /\ c <= 122 THEN c - 32 ELSE IF c >= 65 /\ c <= 90 THEN c + 32
-               ELSE IF c = 233 THEN 201 ELSE c
+               ELSE IF c = 233 THEN 201 ELSE IF c = 924 THEN 181 ELSE c
 HaysOf(s) == { s, <<122>> \o s \o <<122>>, s \o s, (IF s = <<>> THEN <<>> ELSE Tail(s)) \o s, <<>>,
                [k \in DOMAIN s |-> SwapCase(s[k])] \o <<122>> \o s, <<122, 233>>,
                \* U+0000 where s has a non-ASCII character: nothing but s's own characters may match there
